@@ -254,12 +254,15 @@ def run_worker(args):
             prop.account(acc, spec, res)
             count_faults(acc, spec, res)
             if sampled and index < DET_SAMPLE:
-                dg[str(index)] = res["digest"]
+                dg[str(index)] = [res["digest"], res["sched_digest"], bool(res["violations"])]
             if res["violations"]:
                 out["nviol"] += 1
                 if len(out["violations"]) < MAX_REPORTED:
-                    out["violations"].append({"scenario": scen, "index": index, "spec": spec, "schedule": res["schedule"],
-                                              "violations": res["violations"], "digest": res["digest"]})
+                    rep = {"scenario": scen, "index": index, "spec": spec, "schedule": res["schedule"],
+                           "violations": res["violations"], "digest": res["digest"]}
+                    if hasattr(prop, "annotate"):
+                        prop.annotate(rep)
+                    out["violations"].append(rep)
             elif len(out["samples"]) < 2 and done > 3 and len(json.dumps(spec)) < 6000:
                 out["samples"].append({"scenario": scen, "index": index, "spec": spec, "schedule": res["schedule"], "digest": res["digest"]})
         out["runs"][scen] = done
@@ -291,6 +294,8 @@ def match_known(prop_id, report, known):
         sig = kf["signature"]
         vs = report["violations"]
         if all(v["oracle"] in sig["oracle"] for v in vs) and all(v.get("fault") == sig.get("fault") for v in vs):
+            if sig.get("fault") and not report.get("passes_without_fault"):
+                continue  # the violation must vanish once that one fault is removed
             return kf
     return None
 
@@ -299,6 +304,11 @@ def match_known(prop_id, report, known):
 def run_check(pid, tier, seed, nworkers):
     t0 = time.time()
     prop = get_prop(pid)
+    from . import idmodel, shape
+    n1, pr1 = idmodel.selfcheck(REPO)
+    n2, pr2 = shape.selfcheck(REPO)
+    if pr1 or pr2 or not n1 or not n2:
+        raise Harness("reference self-check failed (model/validator vs testdata): %s" % ((pr1 + pr2)[:3] or "no reference files found"))
     work = [(s, prop.count(s, tier)) for s in prop.scen_order if prop.count(s, tier)]
     wd = os.path.join(VERIF, ".work", "%s-%s-%d" % (pid, tier, os.getpid()))
     shutil.rmtree(wd, ignore_errors=True)
@@ -344,8 +354,14 @@ def run_check(pid, tier, seed, nworkers):
             for scen, dg in r["digests"].items():
                 for k, v in dg.items():
                     det_checked += 1
-                    if prim.get((scen, k)) != v:
-                        problems.append(("replay", "run %s/%s: event-log digest differs between interpreters (%s vs %s)" % (scen, k, prim.get((scen, k)), v)))
+                    pv = prim.get((scen, k))
+                    if pv is not None and (pv[2] or v[2]):
+                        continue  # the run is reported as a violation anyway
+                    if pv is None or pv[1] != v[1]:
+                        problems.append(("replay", "run %s/%s: spec/schedule digest differs between interpreters (%s vs %s)" % (scen, k, pv and pv[1][:12], v[1][:12])))
+                    elif pv[0] != v[0]:
+                        problems.append(("det", "run %s/%s: same operations and same schedule gave different results in two interpreters "
+                                                "(process history or hash seed leaks into results)" % (scen, k)))
         merged = merge(workers)
         merged["det_checked"] = det_checked
         merged["hashseeds"] = [hs for _, hs in jobs]
@@ -379,8 +395,10 @@ def run_check(pid, tier, seed, nworkers):
             lines.append("  expected: %s" % v0.get("expected"))
             lines.append("  actual:   %s" % v0.get("actual"))
             new_viol += 1
+        seen_kinds = set()
         for kind, text in problems:
-            if kind in ("det", "poison"):
+            if kind in ("det", "poison") and kind not in seen_kinds:
+                seen_kinds.add(kind)
                 path = os.path.join(VERIF, "replays", "%s-%s.json" % (pid, kind))
                 with open(path, "w") as f:
                     json.dump({"property": pid, "seed": seed, "kind": kind, "detail": text}, f, indent=1)
@@ -398,8 +416,10 @@ def run_check(pid, tier, seed, nworkers):
         total_runs = sum(merged["runs"].values())
         print("%s %s: %d runs, %d evaluations, %d distinct non-trivial, %d violating runs (%d new), %.1fs, %.0f runs/hour" % (
             pid, tier, total_runs, merged["evaluations"], len(merged["nontrivial"]), nviol_runs, new_viol, wall_s, total_runs / wall_s * 3600))
-        if harness_problems:
+        if harness_problems and not new_viol:
             raise Harness("nondeterministic replay: " + "; ".join(harness_problems[:3]))
+        if harness_problems:
+            print("NOTE: %d runs also replayed differently between interpreters (consistent with the violations above)" % len(harness_problems))
         return 1 if new_viol else 0
     finally:
         shutil.rmtree(wd, ignore_errors=True)
